@@ -431,6 +431,33 @@ func (p *c11) Run(rec *core.Recorder, seed uint64, idx int, tier string) {
 		return
 	}
 	idx -= 6 * 4 * 3
+	if idx%40 == 17 {
+		// an include inside a loop reads the includer's loop variables, before and after loops of its own
+		r := core.NewRand("C11loop", seed, idx)
+		n := r.Range(2, 5)
+		inner := []string{"{% for y in [1, 2] %}.{% endfor %}", "{% for y in [] %}x{% else %}e{% endfor %}", "{% for y in 'ab' %}{% for z in [1] %}:{% endfor %}{% endfor %}", "{% set q = 1 %}"}[r.Intn(4)]
+		innerOut := map[string]string{"{% for y in [1, 2] %}.{% endfor %}": "..", "{% for y in [] %}x{% else %}e{% endfor %}": "e", "{% for y in 'ab' %}{% for z in [1] %}:{% endfor %}{% endfor %}": "::", "{% set q = 1 %}": ""}[inner]
+		srcs := map[string]string{
+			"inc":  "[{{ loop.index }}" + inner + "{{ loop.index }}/{{ loop.length }}{{ loop.last ? 'L' : '' }}{{ item }}]",
+			"main": "{% for item in range(1, " + fmt.Sprint(n) + ") %}{% include 'inc' %}{% endfor %}|{% for item in ['a'] %}{% include 'inc' with {'extra': 1} %}{% endfor %}",
+		}
+		var want strings.Builder
+		for i := 1; i <= n; i++ {
+			last := ""
+			if i == n {
+				last = "L"
+			}
+			fmt.Fprintf(&want, "[%d%s%d/%d%s%d]", i, innerOut, i, n, last, i)
+		}
+		fmt.Fprintf(&want, "|[1%s1/1La]", innerOut)
+		rec.Eval("includer-loop-variables", canonSrcs(srcs), true)
+		rec.Count("includer-loop-variables", 1)
+		res := renderFresh(srcs, "main", nil, nil)
+		if res.Panicked || res.Err != nil || res.Out != want.String() {
+			rec.Violate("reference-model", "c11-includer-loop", fmt.Sprintf("an include inside a loop, reading the includer's loop variables around a loop of its own: engine gave %s (err=%v, panicked=%v), include semantics require %s", core.Q(core.Trunc(res.Out, 300)), res.Err, res.Panicked, core.Q(want.String())), map[string]any{"templates": srcs}, res.Stack)
+		}
+		return
+	}
 	if idx%40 == 39 {
 		// includes nested dozens deep: the innermost template still reads what the outermost ones defined
 		r := core.NewRand("C11deep", seed, idx)
